@@ -36,3 +36,25 @@ pub fn vx_rfind_char(s: &str, c: char) -> (r: Option<usize>)
         last_nl(s@) < 0 ==> r.is_none(),
         last_nl(s@) >= 0 ==> r.is_some() && r.unwrap() as int == boff(s@, last_nl(s@)),
 { unimplemented!() }
+/// stand-in for `str::char_indices()` (A2): yields (byte offset, char) of successive characters
+pub struct VxCharIndices { pub s: Ghost<Seq<char>>, pub pos: Ghost<int> }
+#[verifier::external_body]
+pub fn vx_char_indices(s: &str) -> (r: VxCharIndices)
+    ensures r.s@ == s@, r.pos@ == 0,
+{ unimplemented!() }
+impl VxCharIndices {
+    #[verifier::external_body]
+    pub fn next(&mut self) -> (r: Option<(usize, char)>)
+        requires 0 <= old(self).pos@ <= old(self).s@.len(),
+        ensures
+            final(self).s@ == old(self).s@,
+            old(self).pos@ < old(self).s@.len() ==> r.is_some() && r.unwrap().0 as int == boff(old(self).s@, old(self).pos@) && r.unwrap().1 == old(self).s@[old(self).pos@]
+                && final(self).pos@ == old(self).pos@ + 1,
+            old(self).pos@ >= old(self).s@.len() ==> r.is_none() && final(self).pos@ == old(self).pos@,
+    { unimplemented!() }
+}
+/// stand-in for `c.encode_utf16(&mut [0; 2]).len()`
+#[verifier::external_body]
+pub fn vx_char_utf16_len(c: char) -> (r: usize)
+    ensures r as int == utf16_len(c),
+{ unimplemented!() }
